@@ -74,9 +74,12 @@ type referrer struct {
 	// entry carries them); the index entry must still show the manifest's.
 	PushDesc ocispec.Descriptor `json:"-"`
 	Enriched string             `json:"enriched,omitempty"`
-	Bytes    []byte             `json:"-"`
-	Want     string             `json:"-"` // normalised descriptor a listing must show
-	Digest   string             `json:"digest"`
+	// Spell != 0: the subject descriptor inside the manifest differs from the canonical one
+	// in fields other than the digest (bit 1 media type, bit 2 annotations, bit 4 urls)
+	Spell  int    `json:"subject_spelling,omitempty"`
+	Bytes  []byte `json:"-"`
+	Want   string `json:"-"` // normalised descriptor a listing must show
+	Digest string `json:"digest"`
 }
 
 type subject struct {
@@ -265,7 +268,9 @@ type round struct {
 	// callers reach the merge object while the error is handed out
 	storm       bool
 	getInflight atomic.Int64
-	faultGen    atomic.Int64
+	faultsLeft  atomic.Int64
+	faultMu     sync.Mutex
+	faultCh     chan struct{}
 
 	subjects []*subject
 	refs     []*referrer
@@ -280,7 +285,7 @@ var staggerMax = func() int {
 	if v, err := strconv.Atoi(os.Getenv("VERIF_C14_STAGGER")); err == nil && v > 0 {
 		return v
 	}
-	return 150
+	return 100
 }()
 
 var refTagRe = regexp.MustCompile(`^sha256-[0-9a-f]{64}$`)
@@ -413,17 +418,20 @@ func (h *round) before(rec *regmodel.Record) *regmodel.Response {
 			h.getInflight.Add(1)
 			defer h.getInflight.Add(-1)
 		}
-		if ri.Class == "m" && ri.Method == http.MethodPut && h.getInflight.Load() > 0 {
+		if ri.Class == "m" && ri.Method == http.MethodPut && h.faultsLeft.Load() > 0 {
 			h.mu.Lock()
-			coin := h.drng.IntN(2) == 0
+			coin := h.drng.IntN(3) == 0
 			stagger := time.Duration(h.drng.IntN(staggerMax)) * time.Microsecond
 			h.mu.Unlock()
 			if coin {
-				g0 := h.faultGen.Load()
-				for n := 0; n < 400 && h.faultGen.Load() == g0 && h.getInflight.Load() > 0; n++ {
-					time.Sleep(50 * time.Microsecond)
+				h.faultMu.Lock()
+				ch := h.faultCh
+				h.faultMu.Unlock()
+				select {
+				case <-ch:
+				case <-time.After(10 * time.Millisecond):
 				}
-				time.Sleep(stagger)
+				spin(stagger)
 				return nil
 			}
 		}
@@ -495,8 +503,17 @@ func (h *round) before(rec *regmodel.Record) *regmodel.Response {
 	if hit == nil {
 		return nil
 	}
-	if ri.Class == "iGET" {
-		h.faultGen.Add(1)
+	if ri.Class == "iGET" && h.storm {
+		// release the held manifest PUTs, then answer a moment later
+		h.faultsLeft.Add(-1)
+		h.faultMu.Lock()
+		close(h.faultCh)
+		h.faultCh = make(chan struct{})
+		h.faultMu.Unlock()
+		h.mu.Lock()
+		extra := time.Duration(h.drng.IntN(80)) * time.Microsecond
+		h.mu.Unlock()
+		spin(extra)
 	}
 	switch hit.How {
 	case "drop":
@@ -680,7 +697,7 @@ func normDesc(d ocispec.Descriptor) string {
 
 var kinds = []string{"image+type", "image+config", "index", "artifact", "image-noann", "index-notype"}
 
-func buildReferrer(round, id int, kind string, subj *ocispec.Descriptor) *referrer {
+func buildReferrer(round, id int, kind string, subj *ocispec.Descriptor, spell int) *referrer {
 	uniq := fmt.Sprintf("r%d-%d", round, id)
 	ann := map[string]string{"verif.id": uniq, "a.b/c": "x y"}
 	var doc map[string]any
@@ -709,7 +726,22 @@ func buildReferrer(round, id int, kind string, subj *ocispec.Descriptor) *referr
 		ann = nil
 	}
 	if subj != nil {
-		doc["subject"] = map[string]any{"mediaType": subj.MediaType, "digest": subj.Digest.String(), "size": subj.Size}
+		// only the digest identifies the subject: the other fields of the subject
+		// descriptor may be spelled differently from referrer to referrer
+		sd := map[string]any{"mediaType": subj.MediaType, "digest": subj.Digest.String(), "size": subj.Size}
+		if spell&1 != 0 {
+			sd["mediaType"] = map[string]string{
+				ocispec.MediaTypeImageManifest: "application/vnd.docker.distribution.manifest.v2+json",
+				ocispec.MediaTypeImageIndex:    "application/vnd.docker.distribution.manifest.list.v2+json",
+			}[subj.MediaType]
+		}
+		if spell&2 != 0 {
+			sd["annotations"] = map[string]string{"verif.subject.note": "spelled by " + uniq}
+		}
+		if spell&4 != 0 {
+			sd["urls"] = []string{"https://mirror.invalid/" + subj.Digest.Encoded()}
+		}
+		doc["subject"] = sd
 	} else {
 		// a manifest without subject: no index involved
 		doc["annotations"] = map[string]string{"verif.plain": uniq}
@@ -781,6 +813,7 @@ func runCase(phase string, i int) worker.Result {
 
 	h.pingRace = pingRace
 	h.storm = storm
+	h.faultCh = make(chan struct{})
 	h.pingSeen = make(chan struct{})
 	profile := regmodel.Profile{ReferrersAPI: apiFirst, DigestHeader: true, Ranges: true, HonourN: true}
 	h.reg = regmodel.New(profile)
@@ -814,7 +847,14 @@ func runCase(phase string, i int) worker.Result {
 		if subj >= 0 {
 			sd = &h.subjects[subj].Desc
 		}
-		r := buildReferrer(i, nextID, kinds[rng.IntN(len(kinds))], sd)
+		spell := 0
+		if rng.IntN(3) == 0 {
+			spell = 1 + rng.IntN(7)
+		}
+		r := buildReferrer(i, nextID, kinds[rng.IntN(len(kinds))], sd, spell)
+		if spell != 0 && subj >= 0 {
+			r.Spell = spell
+		}
 		nextID++
 		r.Subject = subj
 		r.Via = rng.IntN(4)
@@ -1043,6 +1083,7 @@ func runCase(phase string, i int) worker.Result {
 	if storm {
 		for k, n := 1, 6+rng.IntN(6); k <= n; k++ {
 			h.faults = append(h.faults, &fault{Class: "iGET", Ordinal: k, How: []string{"500", "503", "429"}[rng.IntN(3)]})
+			h.faultsLeft.Add(1)
 		}
 	} else if !apiFirst && !pingRace && rng.IntN(2) == 0 {
 		for k, n := 0, 1+rng.IntN(3); k < n; k++ {
@@ -1777,6 +1818,9 @@ func runCase(phase string, i int) worker.Result {
 		if r.Enriched != "" {
 			res.Count("referrers_pushed_with_enriched_descriptor", 1)
 		}
+		if r.Spell != 0 {
+			res.Count("referrers_spelling_the_subject_descriptor_differently", 1)
+		}
 	}
 	res.Count("spec_violations_seen_by_model", int64(len(h.reg.SpecViolations())))
 	if mode != "plain" {
@@ -1862,6 +1906,13 @@ func (h *round) awaitWorkers(finished chan struct{}) string {
 }
 
 // ---------------------------------------------------------------- helpers
+
+// spin waits for a very short time without the granularity of the timer wheel.
+func spin(d time.Duration) {
+	for t0 := time.Now(); time.Since(t0) < d; {
+		runtime.Gosched()
+	}
+}
 
 func curGid() int64 {
 	var b [64]byte
